@@ -618,6 +618,9 @@ func (ex *explorer) nilTop(spec gens.StructSpec) {
 
 func run(c *core.Ctx) {
 	debug.SetGCPercent(400)
+	if c.Shard == 0 {
+		namingLeg(c)
+	}
 	ex := &explorer{c: c, subMem: map[string]*caseFails{}, tinfo: map[string]*typeInfo{}}
 	idx := 0
 	nTypes := int64(0)
@@ -672,6 +675,11 @@ func run(c *core.Ctx) {
 }
 
 func replay(c *core.Ctx, raw json.RawMessage) {
+	var nc namingCase
+	if err := json.Unmarshal(raw, &nc); err == nil && nc.Leg == "naming" {
+		replayNaming(c, nc)
+		return
+	}
 	var cs caseT
 	if err := json.Unmarshal(raw, &cs); err != nil {
 		c.HarnessError("bad case: %v", err)
